@@ -20,7 +20,7 @@ func (c07) NumCases(tier string) int {
 	if tier == "thorough" {
 		return 600_000
 	}
-	return 30_000
+	return 24_000
 }
 
 func (c07) Describe() CheckInfo {
@@ -41,6 +41,15 @@ func (c07) Describe() CheckInfo {
 func (c07) Gen(env *Env, seed uint64, tier string, i int) *Case {
 	r := world.NewPRNG(world.Mix(seed, 7, uint64(i)))
 	sub := []string{"misfit", "misfit", "cross", "template"}[i%4]
+	if i%16 == 7 {
+		// crash, then run again: what a later successful run leaves must parse
+		c := NewCLICase("C07", "restart", i, seed)
+		c16GenRestart(c, r)
+		c.Extra["rng"] = fmt.Sprint(r.Uint64())
+		c.Extra["family"] = "restart"
+		c.RebuildArgs()
+		return c
+	}
 	c := NewCLICase("C07", sub, i, seed)
 	c.Flags = Flags{SkipImport: r.Chance(1, 2), SkipGen: r.Chance(1, 5), Verbose: r.Chance(1, 5)}
 	switch r.Intn(3) {
@@ -288,7 +297,79 @@ func c07Parses(b []byte, multi bool) error {
 	return nil
 }
 
+// c07Restart: run 1 is killed somewhere after its first mutation, run 2 (another
+// patch with shorter output, or the same one) runs on what was left behind. If
+// run 2 reports success, every Go file on disk parses.
+func c07Restart(env *Env, c *Case) []Violation {
+	var vs []Violation
+	base := c.Spec.Clone()
+	base.Faults = nil
+	patchB := []byte(c.Extra["patch_b"])
+	pbPath := PatDir + "/pb.patch"
+	second := func(faults []world.Fault, variant string) {
+		if len(vs) > 0 {
+			return
+		}
+		spec1 := base.Clone()
+		spec1.Faults = faults
+		r1 := env.Run(spec1)
+		if len(r1.Fired) == 0 || r1.Outcome != OutKilled {
+			return
+		}
+		sp := base.Clone()
+		sp.Faults = nil
+		sp.Nodes = specFromState(r1.Final, nil)
+		sp.Knobs.Seed = world.Mix(base.Knobs.Seed, 2)
+		if variant == "other-patch" {
+			sp.Nodes = append(sp.Nodes, world.NodeSpec{Path: pbPath, Kind: "file", Data: patchB})
+			sp.Args = append(append(append([]string{}, c.Flags.Args()...), "-p", pbPath), c.Targets...)
+		}
+		r2 := env.Run(sp)
+		if r2.Outcome != OutExit || r2.Exit != 0 {
+			return
+		}
+		env.Probe("restart-second-run-succeeds")
+		for p, g := range goFiles(r2.Final) {
+			if err := ParsesAsGo(g.Data); err != nil {
+				cc := c.Clone()
+				cc.Spec.Faults = faults
+				cc.Extra["variant"] = variant
+				f0 := r1.Fired[0]
+				vs = append(vs, Violation{Oracle: "unparseable-emission", Signature: "C07/unparseable-emission/in-place-after-interrupted-run", Case: cc,
+					Detail: fmt.Sprintf("run 1 was killed at op %d (%s %s); run 2 (%s, args %v) exits 0 and %s holds content that does not parse (%v): %q", f0.Seq, f0.Name, f0.Path, variant, r2.W.Args, p, err, clip(string(g.Data), 200))})
+				return
+			}
+		}
+	}
+	if len(c.Spec.Faults) > 0 {
+		second(c.Spec.Faults, c.Extra["variant"])
+		return vs
+	}
+	pilot := env.Run(base)
+	if pilot.Outcome != OutExit || pilot.Exit != 0 {
+		return nil
+	}
+	firstMut := len(pilot.Log)
+	for k, o := range pilot.Log {
+		if o.Mut {
+			firstMut = k
+			break
+		}
+	}
+	for k, o := range pilot.Log {
+		if k < firstMut || o.Name == "exit" || o.Name == "stderr" || o.Name == "stdout" {
+			continue
+		}
+		second([]world.Fault{{AtOp: k, Kind: "kill", Bytes: -1}}, "other-patch")
+		second([]world.Fault{{AtOp: k, Kind: "kill", Bytes: -1}}, "same-patch")
+	}
+	return vs
+}
+
 func (c07) Eval(env *Env, c *Case) []Violation {
+	if c.Sub == "restart" {
+		return c07Restart(env, c)
+	}
 	var vs []Violation
 	mode := "in-place"
 	if c.Flags.Diff {
@@ -458,6 +539,44 @@ func (c07) Eval(env *Env, c *Case) []Violation {
 					f.Sticky = true
 					judgeFault([]world.Fault{f})
 				}
+			}
+		}
+	}
+	// ---- preview output when the stream fails ------------------------------------------
+	// If the output stream fails at some byte and gopatch still reports success,
+	// the output must nevertheless be complete (nothing was lost in a buffer).
+	// (not with -v: the log lines share the stream, and a log line that cannot be
+	// written is not an emission)
+	if (mode == "print" || mode == "diff") && r.Exit == 0 && !c.Flags.Verbose && (c.Idx%3 == 1 || len(c.Spec.Faults) > 0) {
+		fr := world.NewPRNG(world.Mix(c.Seed, 709, uint64(c.Idx)))
+		judgeOut := func(faults []world.Fault) {
+			spec := c.Spec.Clone()
+			spec.Faults = faults
+			rf := env.Run(spec)
+			if len(rf.Fired) == 0 || rf.Outcome != OutExit || rf.Exit != 0 {
+				return
+			}
+			env.Probe("stdout-fault-then-success")
+			if !bytes.Equal(rf.Stdout, r.Stdout) {
+				cc := c.Clone()
+				cc.Spec.Faults = faults
+				f0 := rf.Fired[0]
+				vs = append(vs, Violation{Oracle: "unparseable-emission", Signature: "C07/unparseable-emission/" + mode + "-truncated-but-exit-0" + flags, Case: cc,
+					Detail: fmt.Sprintf("writing the %s output failed (%s after %d bytes) and gopatch still exits 0: %d of %d bytes arrived [%s, args %v]", mode, f0.Err, f0.N, len(rf.Stdout), len(r.Stdout), fam, c.Spec.Args)})
+			}
+		}
+		if len(c.Spec.Faults) > 0 {
+			judgeOut(c.Spec.Faults)
+		} else {
+			n := 0
+			for k, o := range r.Log {
+				if o.Name != "stdout" || o.N == 0 {
+					continue
+				}
+				if n++; n > 8 {
+					break
+				}
+				judgeOut([]world.Fault{{AtOp: k, Kind: "fail", Errno: fr.Pick([]string{"EPIPE", "ENOSPC"}), Bytes: fr.Intn(o.N)}})
 			}
 		}
 	}
